@@ -291,7 +291,14 @@ class ValidatedReadBucketProxy(log.PrefixingLogMixin):
                 raise BadOrMissingHash()
             bh = dict(enumerate(blockhashes))
 
+            # The root of the block hash tree is "the share hash", a leaf of
+            # the (already validated) share hash tree: anchor the block hash
+            # tree to it before accepting anything the share says.
+            share_hash = self.share_hash_tree.get_leaf(self.sharenum)
+            if not share_hash:
+                raise BadOrMissingHash("no share hash for share %d" % self.sharenum)
             try:
+                self.block_hash_tree.set_hashes({0: share_hash})
                 self.block_hash_tree.set_hashes(bh)
             except IndexError as le:
                 raise BadOrMissingHash(le)
